@@ -22,7 +22,30 @@ PROP = "C04"
 
 
 def scenarios(r, p):
-    """(initial stored object, steps) — create then decorate twice; or start from a decorated object"""
+    """(initial stored object, steps, faults) — create then decorate twice; co-owners; an error answer to the GET"""
+    stored, steps = _scenarios(r, p)
+    faults = None
+    if r.random() < 0.2:
+        # one pass whose GET is answered 4xx / 5xx / raises — over an object that meets the target or a drifted one
+        t = rf45.target_of(p)
+        i = r.randrange(1, len(steps)) if len(steps) > 1 else 0
+        faults = {i: r.choice(rf45.GET_FAULTS)}
+        if r.random() < 0.5:
+            old = steps[i]
+
+            def drifted(cur, old=old):
+                cur = old(cur) if old is not None else cur
+                if cur is None:
+                    return None
+                d = g.drift(r, t, cur, exclude=rf45.identity_path)
+                return d[0] if d else cur
+            steps = list(steps)
+            steps[i] = drifted
+        steps = list(steps) + [None]
+    return stored, steps, faults
+
+
+def _scenarios(r, p):
     t = rf45.target_of(p)
 
     def deco(cur):
@@ -71,8 +94,8 @@ def scenarios(r, p):
     return None, [None, deco_drop_owner, None]
 
 
-def check_scenario(ck, drv, p, stored, steps):
-    got = rf45.run_scenario(ck, drv, p, stored, steps)
+def check_scenario(ck, drv, p, stored, steps, faults=None):
+    got = rf45.run_scenario(ck, drv, p, stored, steps, faults=faults)
     if got is None:
         return
     obs, _ = got
@@ -82,10 +105,15 @@ def check_scenario(ck, drv, p, stored, steps):
     prev = None
     for o in obs:
         chained = prev if prev is not None and rf45.cn(prev["after"]) == rf45.cn(o["before"]) else None
+        if chained is not None and chained.get("fault") is not None:
+            chained = None
         bad = rf45.oracle_c04_pass(p, o, chained)
         if bad:
             befores = ([chained["before"]] if chained is not None and "right after" in bad else []) + [o["before"]]
-            ck.violate({"kind": "e2e", "p": p, "befores": befores}, bad)
+            case = {"kind": "e2e", "p": p, "befores": befores}
+            if o.get("fault") is not None:
+                case["faults"] = {str(len(befores) - 1): o["fault"]}
+            ck.violate(case, bad)
         prev = o
 
 
@@ -98,13 +126,13 @@ def replay_case(case, verbose=True) -> str | None:
         return bad
     p, befores = case["p"], case["befores"]
     steps = [(lambda cur, b=b: copy.deepcopy(b)) for b in befores]
-    obs = rf45.Prepared(p).run_passes(None, [steps[0]] + [None] * (len(befores) - 1))
+    obs = rf45.Prepared(p).run_passes(None, [steps[0]] + [None] * (len(befores) - 1), case.get("faults"))
     if obs and "prepare" in obs[0]:
         return None
     bad, prev = None, None
     for o in obs:
         bad = bad or rf45.oracle_c04_pass(p, o, prev)
-        prev = o
+        prev = o if o.get("fault") is None else None
     if verbose:
         print("replay(e2e):", json.dumps(rf45.program_spec(p)[0])[:400], "->",
               [(o["o"], [q["m"] for q in o["reqs"]]) for o in obs], "::", bad)
@@ -133,8 +161,8 @@ def run(tier: str) -> int:
     r = rng("c04-e2e")
     for _ in range(400 if quick else 4000):
         p = rf45.gen_program(r, nulls=r.random() < 0.05)
-        stored, steps = scenarios(r, p)
-        check_scenario(ck, drv, p, stored, steps)
+        stored, steps, faults = scenarios(r, p)
+        check_scenario(ck, drv, p, stored, steps, faults)
     if not quick:
         ck.leanchecker()
 
@@ -143,8 +171,8 @@ def run(tier: str) -> int:
         r2 = rng("c04-widen-e2e")
         for _ in range(300):
             p = rf45.gen_program(r2)
-            stored, steps = scenarios(r2, p)
-            check_scenario(ck, drv, p, stored, steps)
+            stored, steps, faults = scenarios(r2, p)
+            check_scenario(ck, drv, p, stored, steps, faults)
 
     return ck.finish(
         widen=widen,
